@@ -354,6 +354,27 @@ func (eapAkaPrime *EapAkaPrime) Unmarshal(rawData []byte) error {
 				}
 				return errors.Wrapf(err, "EAP-AKA' Unmarshal(): read %s attribute/value failed", attr.attrType)
 			}
+		default:
+			// AT_CHECKCODE and attributes without a dedicated reader: two reserved bytes followed by
+			// the value. The whole attribute is consumed according to its length field, so that the
+			// following attributes are read from the right offset.
+			if attr.length == 0 {
+				return errors.Errorf("EAP-AKA' Unmarshal(): %s attribute length must not be 0", attr.attrType)
+			}
+
+			reserved := make([]byte, EapAkaAttrReservedLen)
+			_, err = io.ReadFull(bufReader, reserved)
+			if err != nil {
+				return errors.Wrapf(err, "EAP-AKA' Unmarshal(): read %s attribute/reserved failed", attr.attrType)
+			}
+			attr.reserved = binary.BigEndian.Uint16(reserved)
+
+			valLen := 4*int(attr.length) - EapAkaAttrTypeLen - EapAkaAttrLengthLen - EapAkaAttrReservedLen
+			attr.value = make([]byte, valLen)
+			_, err = io.ReadFull(bufReader, attr.value)
+			if err != nil {
+				return errors.Wrapf(err, "EAP-AKA' Unmarshal(): read %s attribute/value failed", attr.attrType)
+			}
 		}
 
 		// Set attribute
